@@ -70,6 +70,7 @@ class Run(object):
         with open(self.plugin, "w") as fh:
             fh.write(PLUGIN)
         self.procs, self.state, self.released, self.events = {}, {}, {}, []
+        self.cc_killed = set()
 
     free_run = False
 
@@ -122,6 +123,19 @@ class Run(object):
         self.state[wid] = "killed"
         self.events.append((wid, "KILLED"))
 
+    def kill_compiler(self, wid):
+        """SIGKILL the compiler of worker *wid* only (OOM killer, ^C in another terminal): the worker lives on."""
+        with open(os.path.join(self.ctl, "ccpid_%s" % wid)) as fh:
+            pid = int(fh.read())
+        try:
+            os.kill(pid, signal.SIGKILL)
+        except ProcessLookupError:
+            pass
+        self.released[wid].update(["W0", "W1", "W2"])
+        self.events.append((wid, "CC-KILLED"))
+        self.cc_killed.add(wid)
+        self.state[wid] = self.wait_next(wid)
+
     def drain(self):
         while any(s not in ("done", "killed") for s in self.state.values()):
             for wid in sorted(self.state, key=str):
@@ -146,6 +160,9 @@ def schedules(draw, nmax):
     kill = None
     if draw(st.integers(0, 2)) == 0:
         kill = {"worker": draw(st.integers(0, n - 1)), "at": draw(st.sampled_from(["W0", "W1", "W2", "P"]))}
+        # the whole worker (process group) dies, or only its compiler does and the worker carries on
+        if kill["at"] != "P" and draw(st.booleans()):
+            kill["target"] = "compiler"
     return {"n": n, "schedule": sched, "kill": kill}
 
 
@@ -178,21 +195,35 @@ def check_schedule(case, rec):
                 open(os.path.join(run.ctl, "go_%s_%s" % (w, tag)), "w").close()
             for w in range(n):
                 run.state[w] = run.wait_next(w)
+        def maybe_kill(w):
+            if kill and w == kill["worker"] and run.state[w] == kill["at"]:
+                if kill.get("target") == "compiler":
+                    run.kill_compiler(w)
+                else:
+                    run.kill(w)
+                run.spawn("f")            # the next attempt to load the model
+                return "f"
+            return None
         for w in ([] if run.free_run else case["schedule"]):
             run.advance(w)
-            if kill and fresh is None and w == kill["worker"] and run.state[w] == kill["at"]:
-                run.kill(w)
-                fresh = "f"
-                run.spawn(fresh)          # the next attempt to load the model
+            fresh = fresh or maybe_kill(w)
+        if kill and fresh is None and not run.free_run:
+            # the drawn schedule ended before the victim reached its crash point: walk it there
+            w = kill["worker"]
+            for _ in range(len(TAGS)):
+                if run.state[w] in ("done", "killed", kill["at"]):
+                    break
+                run.advance(w)
+            fresh = maybe_kill(w)
         run.drain()
     except Timeout as exc:
         rec.cls("timeout-inconclusive")
         run.cleanup()
         return
     try:
-        killed = [w for w, s_ in run.state.items() if s_ == "killed"]
+        killed = [w for w, s_ in run.state.items() if s_ == "killed"] + sorted(run.cc_killed)
         if killed:
-            rec.cls("kill:" + kill["at"])
+            rec.cls("kill:" + kill["at"] + (":compiler" if run.cc_killed else ""))
         # non-triviality from the event log: a lookup (release from S) while another compiler is in flight
         overlap = False
         in_flight = set()
@@ -225,6 +256,9 @@ def check_schedule(case, rec):
                 continue
             rc = p.returncode
             who = "fresh-after-kill" if wid == "f" else "worker"
+            if wid in run.cc_killed and rc == 3 and "error" in res and "result" not in res:
+                rec.cls("compiler-killed:worker-reports-error")     # a clean refusal is the right answer
+                continue
             if rc != 0 or "result" not in res:
                 log = open(os.path.join(base, "log_%s.txt" % wid)).read()[-300:]
                 rec.fail("%s-failed:%s" % (who, tag), "worker %s exit %s: %s %s (events %r)"
@@ -345,10 +379,14 @@ def run_shard(ctx, spec):
         ctx.run_case("schedule", {"n": 2, "schedule": list(bits), "kill": None})
     ctx.extra["exhaustive_two_worker_orders"] = len(orders) if not quick else 0
     # kill points x who is ahead
-    kills = [(at, pre) for at in ("W0", "W1", "W2", "P") for pre in ([0, 0, 0, 0, 0], [0, 1, 0, 1, 0, 1, 0, 1], [1, 0, 0, 0, 0])]
-    for j, (at, pre) in enumerate(kills):
-        if j % spec["n"] == spec["k"] % len(kills) or (not quick and j % 4 == spec["k"] % 4):
-            ctx.run_case("schedule", {"n": 2, "schedule": pre, "kill": {"worker": 0, "at": at}})
+    kills = [(at, pre, tgt) for tgt in ("worker", "compiler") for at in ("W0", "W1", "W2", "P")
+             for pre in ([0, 0, 0, 0, 0], [0, 1, 0, 1, 0, 1, 0, 1], [1, 0, 0, 0, 0]) if not (tgt == "compiler" and at == "P")]
+    for j, (at, pre, tgt) in enumerate(kills):
+        if j % spec["n"] == spec["k"] or (not quick and j % 4 == spec["k"] % 4):
+            kill = {"worker": 0, "at": at}
+            if tgt == "compiler":
+                kill["target"] = "compiler"
+            ctx.run_case("schedule", {"n": 2, "schedule": pre, "kill": kill})
     ctx.explore("schedule", schedules(4 if quick else 16), 2 if quick else 30, shrink=False)
     ctx.explore("schedule", free_runs(6 if quick else 16), 2 if quick else 25, shrink=False, salt=7)
     # both placements of TMPDIR are enumerated (Hypothesis' first example is always the simplest one)
